@@ -103,7 +103,7 @@ def law(cell):
     return {'v': out[:4], 'n': 2, 'nt': cell if len(pts) >= 2 else None, 'obs': [len(pts), form, wd, pts == sorted(pts, key=lambda t: t[1])]}
 
 
-OPS = ('plain', 'multi_dict', 'multi_from_plain', 'multi_from_multi', 'multi_again')
+OPS = ('plain', 'multi_dict', 'multi_from_plain', 'multi_from_multi', 'multi_again', 'failing')
 
 
 def history(cell):
@@ -149,6 +149,21 @@ def history(cell):
             last_build = (lambda bp=bp, src=src: pb.DragModelMultiBC(bp, src, *args))
             model = last_multi = last_build()
             shared = True
+        elif op == 'failing':
+            # constructions that raise (empty table, empty point list, bad table entries): nothing may be left behind
+            for bad in (lambda: pb.DragModelMultiBC(fresh_points(), []), lambda: pb.DragModelMultiBC([], table, *args),
+                        lambda: pb.DragModelMultiBC(fresh_points(), [{'Mach': 1.0}], *args), lambda: pb.DragModel(-1.0, table)):
+                try:
+                    bad()
+                except Exception:  # noqa
+                    pass
+            n += 1
+            if [(p['Mach'], bits(p['CD'])) for p in table] != std:
+                out.append({'msg': f'history {ops[:k + 1]}: a failing construction altered the shipped table {tname}', 'key': None})
+            for name, m, s_ in live:
+                if snap(m) != s_:
+                    out.append({'msg': f'{tname} history {ops[:k + 1]}: a failing construction changed the live model created by step {name}', 'key': None})
+            continue
         elif op == 'multi_again':
             if last_build is None:
                 return {'vac': True, 'n': n}
